@@ -198,6 +198,15 @@ func (w *c11World) lookAddrs() []netip.Addr {
 }
 
 func (w *c11World) record(op string, desc string, looks []netip.Addr) []m.RoutingTableEntry {
+	if len(w.steps)%4 == 3 {
+		// somebody looks at the table (the dashboard's dump): reading it changes nothing
+		before := w.tbl.VerifEntries()
+		_ = w.tbl.Format()
+		if !sameEntries(before, w.tbl.VerifEntries()) {
+			w.violate("printing the routing table (Format) changed its content or order", "format-changes-table")
+		}
+		w.c.Count("op:Format")
+	}
 	after := w.tbl.VerifEntries()
 	ls := make([]string, len(looks))
 	for i, a := range looks {
